@@ -3,18 +3,19 @@
 # usage: build_impl.sh <outdir> <variant: plain|asan|fault> [repo]
 # Produces $1/libconfuse_<variant>.a ; nothing is written under /repo.
 set -e
+HERE="$(cd "$(dirname "$0")" && pwd)"
 OUT="$1"; VAR="${2:-plain}"; REPO="${3:-/repo}"
 mkdir -p "$OUT/$VAR"
 cd "$OUT/$VAR"
 flex -Pcfg_yy -olexer.c "$REPO/src/lexer.l"
-CF="-g -O1 -DHAVE_CONFIG_H -D_GNU_SOURCE -DLIBCONFUSE_VERIF -DLOCALEDIR=\"/usr/share/locale\" -I$REPO -I$REPO/src -w"
+CF="-g -O1 -DHAVE_CONFIG_H -D_GNU_SOURCE -DLIBCONFUSE_VERIF -DLOCALEDIR=\"/usr/share/locale\" -I$REPO -I$REPO/src -I$HERE/fallback_config -w"
 case "$VAR" in
   plain) CC=gcc ;;
   asan)  CC=gcc; CF="$CF -fsanitize=address,undefined -fno-sanitize-recover=undefined -fno-omit-frame-pointer" ;;
   fault) CC=gcc; CF="$CF -fsanitize=address,undefined -fno-sanitize-recover=undefined -fno-omit-frame-pointer" ;;
 esac
 if [ "$VAR" = fault ]; then
-  $CC $CF -include "$(dirname "$0")/fault_alloc.h" -c "$REPO/src/confuse.c" -o confuse.o
+  $CC $CF -include "$HERE/fault_alloc.h" -c "$REPO/src/confuse.c" -o confuse.o
 else
   $CC $CF -c "$REPO/src/confuse.c" -o confuse.o
 fi
